@@ -5,6 +5,8 @@
  *      --wrap=pthread_cond_signal,--wrap=pthread_cond_broadcast       counting only (a lock is held there)
  *  -Wl,--wrap=epoll_wait,--wrap=poll,--wrap=select                    observation of the event thread's sleeps
  *  -Wl,--wrap=inotify_add_watch                                       "/etc" -> the case's scratch directory
+ *  -Wl,--wrap=pthread_create                                          counts the threads the LIBRARY starts (the
+ *                                                                     harness calls __real_pthread_create itself)
  *
  * The __real_ symbols resolve to libtsan's interceptors (libtsan precedes libc in the link), so TSan's
  * view of synchronisation is unchanged; the wrappers only add sched_yield()/nanosleep() between critical
@@ -39,6 +41,7 @@ int __real_epoll_wait(int epfd, struct epoll_event *ev, int maxev, int timeout);
 int __real_poll(struct pollfd *fds, nfds_t n, int timeout);
 int __real_select(int nfds, fd_set *r, fd_set *w, fd_set *e, struct timeval *tv);
 int __real_inotify_add_watch(int fd, const char *path, uint32_t mask);
+int __real_pthread_create(pthread_t *t, const pthread_attr_t *a, void *(*fn)(void *), void *arg);
 
 /* ---- roles (thread-local); library-created threads keep role 0 ---- */
 enum { ET_ROLE_LIB = 0, ET_ROLE_MAIN = 1, ET_ROLE_RESP = 2, ET_ROLE_MON = 3, ET_ROLE_CLIENT0 = 16 };
@@ -115,6 +118,58 @@ static void et_inject(void)
     atomic_fetch_add_explicit(&et_n_inj_yield, 1, ET_RELAX);
     sched_yield();
   }
+}
+
+/* ---- threads started by the library (event threads, configuration-reload threads) ---- */
+static __thread int     et_is_event_thread;
+static _Atomic int      et_lib_thr_started, et_lib_thr_finished, et_lib_et_alive;
+static _Atomic uint64_t et_n_reload_threads; /* library threads that finished without ever sleeping in a wait */
+
+typedef struct {
+  void *(*fn)(void *);
+  void *arg;
+} et_tramp_t;
+static et_tramp_t  et_tramp_pool[512];
+static _Atomic int et_tramp_next;
+
+static void *et_tramp(void *box)
+{
+  et_tramp_t t = *(et_tramp_t *)box;
+  void      *rv;
+  et_role = ET_ROLE_LIB;
+  rv      = t.fn(t.arg);
+  if (et_is_event_thread) {
+    atomic_fetch_sub(&et_lib_et_alive, 1);
+  } else {
+    atomic_fetch_add_explicit(&et_n_reload_threads, 1, ET_RELAX);
+  }
+  atomic_fetch_add(&et_lib_thr_finished, 1);
+  atomic_fetch_add_explicit(&et_progress, 1, ET_RELAX);
+  return rv;
+}
+
+int __wrap_pthread_create(pthread_t *t, const pthread_attr_t *a, void *(*fn)(void *), void *arg)
+{
+  int i = atomic_fetch_add(&et_tramp_next, 1);
+  int rc;
+  if (i >= 512) {
+    return __real_pthread_create(t, a, fn, arg);
+  }
+  et_tramp_pool[i].fn  = fn;
+  et_tramp_pool[i].arg = arg;
+  atomic_fetch_add(&et_lib_thr_started, 1);
+  rc = __real_pthread_create(t, a, et_tramp, &et_tramp_pool[i]);
+  if (rc != 0) {
+    atomic_fetch_sub(&et_lib_thr_started, 1);
+  }
+  return rc;
+}
+
+/* library threads that are neither finished nor known event threads: reload threads in flight (a thread that
+ * has just been started and has not reached its first wait yet counts too: conservative) */
+static inline int et_reloads_in_flight(void)
+{
+  return atomic_load(&et_lib_thr_started) - atomic_load(&et_lib_thr_finished) - atomic_load(&et_lib_et_alive);
 }
 
 /* uninstrumented peek: is the mutex held by another thread right now? (glibc layout) */
@@ -207,6 +262,10 @@ static int et_wait_enter(int backend, int timeout_ms)
   int        tid, main_tid;
   if (et_role != ET_ROLE_LIB) {
     return -1;
+  }
+  if (!et_is_event_thread) {
+    et_is_event_thread = 1;
+    atomic_fetch_add(&et_lib_et_alive, 1);
   }
   tid      = et_gettid();
   main_tid = atomic_load_explicit(&et_main_et_tid, memory_order_acquire);
